@@ -49,7 +49,7 @@ class C38(hc.PProp):
                  'dst': '198.51.100.%d' % rng.randint(1, 254) if fam != 'TCP6' else '2001:db8:1::%x' % rng.randint(1, 65535),
                  'sport': rng.choice([0, 1, 80, 1024, 40000, 65535]), 'dport': rng.choice([1, 3129, 65535]),
                  'tlvs': [[rng.choice([0x01, 0x02, 0x05, 0x20, 0x30, 0xE0]), rng.randint(0, 40)] for _ in range(rng.choice([0, 0, 1, 3]))] if ver == 2 else [],
-                 'seg': rng.choice(['rand', 'byte', 'whole', 'byte']), 'bad': rng.choice([None, None, 'sig', 'longline', 'port70000', 'portneg', 'mismatch', 'shortlen', 'version', 'command', 'truncated', 'garbage_addr', 'noheader'])}
+                 'seg': rng.choice(['rand', 'byte', 'whole', 'byte']), 'bad': rng.choice([None, None, 'sig', 'longline', 'port70000', 'portneg', 'mismatch', 'shortlen', 'version', 'command', 'truncated', 'garbage_addr', 'noheader', 'dport70000', 'dport6digits', 'dport_trailing', 'extra_field'])}
             conns.append(c)
         plan['conns'] = conns
         plan['_lists'] = ['conns']
@@ -69,6 +69,14 @@ class C38(hc.PProp):
             h = b'PROXY TCP4 192.0.2.1 198.51.100.1 -1 80\r\n'
         elif b == 'port70000' and c['ver'] == 1:
             h = b'PROXY TCP4 192.0.2.1 198.51.100.1 70000 80\r\n'
+        elif b == 'dport70000' and c['ver'] == 1:
+            h = b'PROXY TCP4 192.0.2.1 198.51.100.1 1000 70000\r\n'
+        elif b == 'dport6digits' and c['ver'] == 1:   # must not be read as its first five digits
+            h = b'PROXY TCP4 192.0.2.1 198.51.100.1 1000 %s\r\n' % rng.choice([b'100000', b'655350', b'800000'])
+        elif b == 'dport_trailing' and c['ver'] == 1:
+            h = b'PROXY TCP4 192.0.2.1 198.51.100.1 1000 80%s\r\n' % rng.choice([b'xyz', b' ', b'\t', b'.5'])
+        elif b == 'extra_field' and c['ver'] == 1:
+            h = b'PROXY TCP4 192.0.2.1 198.51.100.1 1000 80 443\r\n'
         elif b == 'mismatch' and c['ver'] == 1:
             h = b'PROXY TCP6 192.0.2.1 198.51.100.1 1000 80\r\n'
         elif b == 'shortlen' and c['ver'] == 2 and c['fam'] != 'UNKNOWN':
